@@ -265,7 +265,7 @@ def unary_task(k, what, order_vars=None):
 
 # ------------------------------------------------------------------ C18: the expression parser on a SYMBOLIC syntax tree
 INT_KINDS = ['&', '|', 'and', 'or', '~', 'not', 'leaf', 'and3']
-LEAF_KINDS = ['a', 'b', 'c', '0', '1', 'True', 'False', 'c']        # (a variable outside the ordering is examined natively: see c18 exploration part)
+LEAF_KINDS = ['a', 'b', 'c', '0', '1', 'True', 'False', 'd']        # 'd' is outside the ordering: RuntimeError <=> a used leaf is d
 
 
 def onehot3(prefix, fixed=None):
@@ -348,7 +348,7 @@ def sym_tree(fixed, depth2=True):
         c0 = ev_int(kc['0'], ev_leaf('00', asg), ev_leaf('01', asg))
         c1 = ev_int(kc['1'], ev_leaf('10', asg), ev_leaf('11', asg))
         return ev_int(kr, c0, c1)
-    D = None
+    D = LEAF_KINDS.index('d') if 'd' in LEAF_KINDS else None
     unary = lambda sel: b_or(sel[INT_KINDS.index('~')], sel[INT_KINDS.index('not')], sel[INT_KINDS.index('leaf')])
     used = {}
     used['0'] = True
@@ -356,7 +356,7 @@ def sym_tree(fixed, depth2=True):
     for p in ('0', '1'):
         used[p + '0'] = used[p]
         used[p + '1'] = b_and(used[p], b_not(unary(kc[p])))
-    uses_d = False
+    uses_d = b_or(*[b_and(used[p], gl[p][D]) for p in gl]) if D is not None else False
 
     def describe(m):
         val = lambda nm_: bool(fixed.get(nm_, m.get(nm_, False)))
